@@ -79,9 +79,60 @@ def check_C06(tier, seed):
     return _sys("C06", tier, seed, ["C06"], ["fanout", "mixed", "fanout", "zerodelay", "ties"], 6, 30, 6, 14, em)
 
 
+def _mc(spec, cfg, workers=8, timeout=1200, heap="8g"):
+    r = vlib.tlc(spec, cfg, workers=workers, timeout=timeout, heap=heap, extra=["-noGenerateSpecTE"])
+    return r
+
+
 def check_C07(tier, seed):
-    em = lambda r: {"batch": r.choice([1, 2, 64]), "period": r.choice([0, 0, 40])}
-    return _sys("C07", tier, seed, ["C07"], ["nonmono", "time0:medium", "initdone", "mixed", "nonmono", "time0:medium", "sparse"], 8, 36, 5, 12, em)
+    t0 = time.time()
+    c = syscamp.Campaign("C07", tier, seed, own_ids=["C07"])
+    try:
+        c.build()
+        extra = {}
+        # (a) exhaustive model checking of the termination accounting against every legal environment
+        mc = _mc("Termination.tla", "Termination.cfg" if tier == "quick" else "Termination_big.cfg", timeout=1500)
+        extra["mc_termination"] = {"states": mc["states"], "distinct": mc["distinct"], "depth": mc["depth"],
+                                   "violated": mc["violated"], "error": mc["error"],
+                                   "bounds": "2 LPs, timestamps 0..2, <=3 valid events per LP (quick); 3 LPs/0..3 (thorough)"}
+        if mc["violated"]:
+            c.violations.append({"property": "C07", "what": "TLC: invariant %s of Termination.tla violated (design level)" % mc["violated"],
+                                 "line": 0, "cfg": {}, "model": ("Termination.tla", 0), "trace": None, "md": {}})
+        elif mc["error"] or mc["timeout"] or not mc["distinct"]:
+            c.machinery.append({"property": "C07", "what": "Termination.tla model checking failed: %s" % (mc["error"] or "timeout")})
+        # (b) the real termination.c driven through legal environment sequences, validated by TLC
+        tr = os.path.join(c.scr, "term.ndjson")
+        nseq, ln = (700, 14) if tier == "quick" else (6000, 18)
+        rc, out = vlib.sh([os.path.join(c.bdir, "termdrv"), tr, str(seed), str(nseq), str(ln)], timeout=120)
+        v = vlib.validate_trace("TerminationTrace.tla", "TerminationTrace.cfg", tr, timeout=1500)
+        c.stats["states"] += v["distinct"] + mc["distinct"]
+        c.stats["serial_traces"] += nseq
+        extra["driver_sequences"] = nseq
+        extra["driver_lines_validated"] = v["res"]["reached"] if v.get("res") else 0
+        import re as _re
+        m = _re.search(r'"DIVERGENCES",\s*(\d+)', v["out"])
+        extra["conformance_divergences"] = int(m.group(1)) if m else -1
+        if v["verdict"] == "bad":
+            b = v["res"]["bad"][0]
+            lines = open(tr).read().split("\n")
+            i = b["at"] - 1
+            j = i
+            while j > 0 and '"Reset"' not in lines[j]:
+                j -= 1
+            seq = lines[j:i + 1]
+            c.violations.append({"property": "C07", "what": b["w"] + " | sequence: " + " ".join(seq)[:900], "line": b["at"],
+                                 "cfg": {"driver": "termdrv", "seed": seed}, "model": ("termdrv", seed), "trace": tr, "md": {}})
+        elif v["verdict"] != "ok":
+            c.machinery.append({"property": "C07", "what": "termination driver trace: %s %s" % (v["verdict"], json.dumps(v.get("res")))})
+        else:
+            c.samples.append({"driver": "termdrv", "first_sequence": open(tr).read().split("\n")[:12]})
+        # (c) whole-system runs
+        em = lambda r: {"batch": r.choice([1, 2, 64]), "period": r.choice([0, 0, 40])}
+        c.run(_models(tier, seed, ["nonmono", "time0:medium", "initdone", "mixed", "nonmono", "time0:medium", "sparse"], 8, 36),
+              5 if tier == "quick" else 12, emphasis=em)
+        return c.finish(extra_cov=extra)
+    finally:
+        c.close()
 
 
 def check_C08(tier, seed):
@@ -102,3 +153,78 @@ def check_C13(tier, seed):
     em = lambda r: {"ckpt": r.choice([1, 2, 3, 4, 6]), "batch": 1, "period": 0, "switch": r.choice(["1/8", "1/24", "1/96"]),
                     "threads": r.choice([2, 3, 4])}
     return _sys("C13", tier, seed, ["C13"], ["mixed", "fanout", "zerodelay"], 6, 30, 6, 14, em, "small", "medium")
+
+
+def check_C10(tier, seed):
+    """serial runtime = reference semantics: every serial trace must be a behaviour of SeqSim"""
+    import gen_model
+    t0 = time.time()
+    scr = vlib.scratch()
+    try:
+        bdir = vlib.build(os.path.join(scr, "build"))
+        fams = list(gen_model.FAMILIES)
+        n = 16 if tier == "quick" else 90
+        jobs = []
+        for i in range(n):
+            fam = fams[i % len(fams)]
+            size = "small" if (tier == "quick" or i % 3) else "medium"
+            for mode in (["never"], ["pred"], ["term", 3 + i % 7]):
+                jobs.append((fam, seed * 1000 + i, size, mode))
+
+        def one(j):
+            fam, ms, size, mode = j
+            d = os.path.join(scr, "m_%s_%d_%s" % (fam, ms, mode[0]))
+            os.makedirs(d, exist_ok=True)
+            m = gen_model.gen(ms, fam, size)
+            if mode[0] == "term":
+                m["termtime"] = mode[1]
+            open(os.path.join(d, "model.txt"), "w").write(gen_model.to_txt(m))
+            json.dump(m, open(os.path.join(d, "model.json"), "w"))
+            tr = os.path.join(d, "serial.ndjson")
+            args = ["--model", os.path.join(d, "model.txt"), "--out", tr, "--serial", "--gvt-period", "0"]
+            if mode[0] == "never":
+                args.append("--never-end")
+            if mode[0] == "term":
+                args += ["--term-time", mode[1]]
+            rc, out = syscamp.run_twh(bdir, args)
+            if rc != 0:
+                return {"job": j, "verdict": "machinery", "why": "twh rc=%d %s" % (rc, out[-200:]), "trace": tr}
+            v = vlib.validate_trace("SeqSimTrace.tla", "SeqSimTrace.cfg", tr, model=os.path.join(d, "model.json"))
+            return {"job": j, "verdict": v["verdict"], "v": v, "trace": tr, "model": os.path.join(d, "model.json"),
+                    "lines": v["res"]["total"] if v.get("res") else 0, "reached": v["res"]["reached"] if v.get("res") else 0}
+
+        res = vlib.pmap(one, jobs)
+        states = sum(r["v"]["distinct"] for r in res if "v" in r)
+        viol = [r for r in res if r["verdict"] in ("rejected", "invariant", "bad")]
+        mach = [r for r in res if r["verdict"] == "machinery"]
+        rc = 0
+        for k, r in enumerate(viol[:3]):
+            line = ""
+            try:
+                line = open(r["trace"]).read().split("\n")[r["reached"]]
+            except Exception:
+                pass
+            rp = vlib.save_replay("C10", "v%d" % (k + 1), [r["trace"], r.get("model")],
+                                  {"property": "C10", "job": r["job"], "rejected_at_line": r["reached"] + 1, "line": line,
+                                   "invariant": r["v"].get("violated")})
+            print("VIOLATION property=C10 replay=%s  (serial trace is not a behaviour of SeqSim: longest accepted prefix %d of %d lines; next line %s)"
+                  % (rp, r["reached"], r["lines"], line[:200]))
+            rc = 1
+        if mach and rc == 0:
+            print("MACHINERY-FAILURE", json.dumps(mach[0].get("why"))[:400])
+            rc = 2
+        ok = [r for r in res if r["verdict"] == "ok"]
+        cov = {"states": max(1, states), "transitions": max(1, states), "traces_validated_against_impl": len(res),
+               "samples": [{"model": "%s/%d/%s" % (r["job"][0], r["job"][1], r["job"][2]), "mode": r["job"][3], "lines": r["lines"]}
+                           for r in ok[:3]] or [{"note": "none accepted"}],
+               "evaluations": len(res), "distinct_nontrivial": len(set((r["job"][0], r["job"][1], tuple(r["job"][3])) for r in ok)),
+               "rule": "generated models of every family x stop mode (run to exhaustion / stop by predicates / stop after a termination time); "
+                       "distinct by (model, mode); every line of the serial engine's dispatch log must be a SeqSim step",
+               "trace_lines_validated": sum(r.get("reached", 0) for r in res), "exhaustive": False}
+        vlib.write_evidence("C10", tier, seed, "model_checking", cov, time.time() - t0, violations=len(viol),
+                            assumptions=["the table-driven interpreter logs faithfully what the dispatcher handed to it",
+                                         "library draws are taken from the log (their values are an input of SeqSim)"])
+        return rc
+    finally:
+        if not os.environ.get("VERIF_KEEP"):
+            shutil.rmtree(scr, ignore_errors=True)
